@@ -11,17 +11,17 @@ static int tv_valid(const struct tval *v) { return v->row < 3 && v->b <= 1 && v-
 static void tv_build(const struct tval *v, TYPE_T *o, struct tv_store *s) {
     memset(o, 0, sizeof(*o));
     o->id = (long)tv_ids[v->row];
-    if(v->row == 0) { o->val.present = val_PR_BOOLEAN; o->val.choice.BOOLEAN = v->b ? 0xff : 0; }
-    else if(v->row == 1) { o->val.present = val_PR_INTEGER_0_255_; o->val.choice.INTEGER_0_255_ = (long)v->i; }
-    else { o->val.present = val_PR_OCTET_STRING_SIZE_1_; s->ob[0] = v->o; s->ob[1] = 0;
-           o->val.choice.OCTET_STRING_SIZE_1_.buf = s->ob; o->val.choice.OCTET_STRING_SIZE_1_.size = 1; }
+    if(v->row == 0) { o->val.present = val_PR_RowB; o->val.choice.RowB = v->b ? 0xff : 0; }
+    else if(v->row == 1) { o->val.present = val_PR_RowI; o->val.choice.RowI = (long)v->i; }
+    else { o->val.present = val_PR_RowO; s->ob[0] = v->o; s->ob[1] = 0;
+           o->val.choice.RowO.buf = s->ob; o->val.choice.RowO.size = 1; }
 }
 static int tv_match(const struct tval *v, const TYPE_T *o) {
     if(o->id != tv_ids[v->row]) return 0;
-    if(v->row == 0) return o->val.present == val_PR_BOOLEAN && !o->val.choice.BOOLEAN == !v->b;
-    if(v->row == 1) return o->val.present == val_PR_INTEGER_0_255_ && o->val.choice.INTEGER_0_255_ == v->i;
-    return o->val.present == val_PR_OCTET_STRING_SIZE_1_ && o->val.choice.OCTET_STRING_SIZE_1_.size == 1
-        && o->val.choice.OCTET_STRING_SIZE_1_.buf && o->val.choice.OCTET_STRING_SIZE_1_.buf[0] == v->o;
+    if(v->row == 0) return o->val.present == val_PR_RowB && !o->val.choice.RowB == !v->b;
+    if(v->row == 1) return o->val.present == val_PR_RowI && o->val.choice.RowI == v->i;
+    return o->val.present == val_PR_RowO && o->val.choice.RowO.size == 1
+        && o->val.choice.RowO.buf && o->val.choice.RowO.buf[0] == v->o;
 }
 /* inner value with its own (universal) tag */
 static void tv_inner_der(const struct tval *v, struct rbuf *b) {
